@@ -2,6 +2,7 @@
 //@harness name=trace_references_leaves_no_grey props=C01 obligation=Heap/trace_references_no_grey_left kind=bounded bound="a heap of 2 objects; blackening the second re-greys the first (what ObjBoundMethod::blacken does to its receiver); loops unwound 5" doc="collector core, bounded: after Heap::trace_references no object is grey — an object re-greyed while an earlier one was being blackened is visited again, so it cannot be swept as garbage"
 //@harness name=sweep_keeps_black_frees_white props=C01,C16 obligation=Heap/sweep_keeps_black_reports_white_bytes kind=bounded bound="a heap of 2 objects with symbolic colours in {Black, White}; loops unwound 5" doc="collector core, bounded: Heap::sweep retains exactly the black objects (in order) and returns the byte size of the white ones"
 //@harness name=mark_roots_greys_rooted props=C01 obligation=Heap/mark_roots_greys_exactly_rooted kind=bounded bound="a heap of 2 leaf objects with symbolic root counts and colours; loops unwound 5" doc="collector core, bounded: after Heap::mark_roots an object is grey iff its root count is positive (leaf objects), whatever colour it had before"
+//@harness name=allocate_root_counts_one props=C01,C16 obligation=Heap/allocate_root_and_unique_start_with_one_root kind=bounded configs=off bound="an empty Heap in the optimised configuration (no collection below the 64 KiB threshold); loops unwound 5" doc="Heap::allocate_root / allocate_unique return a handle to a new white box that the heap owns, with root count exactly 1, and account size_of::<T>() bytes; dropping the handle brings the count to 0"
 use super::*;
 
 /// A heap object for the collector harnesses: blackening it may re-grey another object's colour cell
@@ -105,5 +106,27 @@ fn mark_roots_greys_rooted() {
         assert!(((*b_colour).get() == Colour::Grey) == (rb > 0));
         assert!((*a_colour).get() != Colour::Black && (*b_colour).get() != Colour::Black);
     }
+    std::mem::forget(heap);
+}
+
+#[kani::proof]
+#[kani::unwind(5)]
+fn allocate_root_counts_one() {
+    let mut heap = Heap { collection_threshold: 65536, bytes_allocated: 0, objects: Vec::with_capacity(2) };
+    let r = heap.allocate_root(Node { regrey_target: false });
+    assert!(heap.objects.len() == 1);
+    assert!(heap.bytes_allocated == mem::size_of::<Node>());
+    assert!(r.gc_box().num_roots.get() == 1);
+    assert!(r.gc_box().colour.get() == Colour::White);
+    let same = heap.objects[0].as_ref().get_ref() as *const GcBox<dyn GcManaged> as *const u8 == r.ptr.as_ptr() as *const u8;
+    assert!(same);
+    let u = heap.allocate_unique(Node { regrey_target: false });
+    assert!(heap.objects.len() == 2);
+    assert!(heap.bytes_allocated == 2 * mem::size_of::<Node>());
+    assert!(u.gc_box().num_roots.get() == 1);
+    let g = r.as_gc();
+    drop(r);
+    assert!(g.gc_box().num_roots.get() == 0);
+    std::mem::forget(u);
     std::mem::forget(heap);
 }
